@@ -774,11 +774,14 @@ def stored_constants_profile(f):
                 d = out.setdefault('return', {})
                 d[nm] = d.get(nm, 0) + 1
         for lhs, how, rhs in written_lvalues(ev):
-            if how != '=' or rhs is None:
+            if how != '=' or rhs is None or not isinstance(rhs, dict):
                 continue
-            nm = named(rhs)
-            if not nm:
+            nms = [named(rhs)] if named(rhs) else \
+                [y['name'] for y in walk(rhs) if is_int(y) and y.get('name')
+                 and y['name'] not in ('TRUE', 'FALSE', 'NULL') and not y['name'].startswith('_dbus_assert')]
+            if not nms:
                 continue
+            nm = None
             if lhs.get('k') == 'member':
                 slot = 'store:%s.%s' % (lhs.get('rec'), lhs.get('field'))
             elif lhs.get('k') == 'un' and lhs.get('op') == '*' and is_ref(lhs.get('e')) and lhs['e'].get('kind') == 'param':
@@ -786,7 +789,8 @@ def stored_constants_profile(f):
             else:
                 continue
             d = out.setdefault(slot, {})
-            d[nm] = d.get(nm, 0) + 1
+            for nm in nms:
+                d[nm] = d.get(nm, 0) + 1
     return out
 
 
